@@ -389,15 +389,29 @@ int ABT_thread_create_many(int num_threads, ABT_pool *pool_list,
 
             void (*thread_f)(void *) = thread_func_list[i];
             void *arg = arg_list ? arg_list[i] : NULL;
+            /* Create without pushing so that a later failure can be undone. */
             int abt_errno =
                 ythread_create(p_global, p_local, p_pool, thread_f, arg,
                                ABTI_thread_attr_get_ptr(attr),
                                ABTI_THREAD_TYPE_YIELDABLE |
                                    ABTI_THREAD_TYPE_NAMED,
-                               NULL, THREAD_POOL_OP_PUSH, &p_newthread);
+                               NULL, THREAD_POOL_OP_INIT, &p_newthread);
+            if (ABTI_IS_ERROR_CHECK_ENABLED && abt_errno != ABT_SUCCESS) {
+                int j;
+                for (j = 0; j < i; j++) {
+                    thread_free(p_global, p_local,
+                                ABTI_thread_get_ptr(newthread_list[j]),
+                                ABT_TRUE);
+                    newthread_list[j] = ABT_THREAD_NULL;
+                }
+                ABTI_HANDLE_ERROR(abt_errno);
+            }
             newthread_list[i] = ABTI_ythread_get_handle(p_newthread);
-            /* TODO: Release threads that have been already created. */
-            ABTI_CHECK_ERROR(abt_errno);
+        }
+        for (i = 0; i < num_threads; i++) {
+            ABTI_thread *p_thread = ABTI_thread_get_ptr(newthread_list[i]);
+            ABTI_pool_push(p_thread->p_pool, p_thread->unit,
+                           ABT_POOL_CONTEXT_OP_THREAD_CREATE);
         }
     }
 
